@@ -175,6 +175,9 @@ func (s *Sim) Do(o Op) (caseT []string, obsT []string) {
 	case "IS":
 		if l, ok := s.locals[o.LH]; ok {
 			ice.VerifInbound(l, s.Build(o.Msg), o.Src.AddrPort())
+		} else if l, ok := s.retired[o.LH]; ok && !s.closed {
+			// a datagram read from a socket the agent has released meanwhile: its task was already queued
+			ice.VerifInboundInFlight(s.A, l, s.Build(o.Msg), o.Src.AddrPort())
 		}
 		caseT = append(append([]string{"IS", fmt.Sprint(o.LH)}, o.Src.Toks()...), o.Msg.Toks()...)
 	case "ID":
@@ -239,7 +242,8 @@ func (s *Sim) Do(o Op) (caseT []string, obsT []string) {
 	case "RS":
 		err := s.A.Restart(Ufrag(o.A), Pwd(o.B))
 		if err == nil {
-			for h := range s.locals {
+			for h, c := range s.locals {
+				s.retire(h, c)
 				delete(s.locals, h)
 			}
 			for h := range s.remotes {
@@ -307,6 +311,7 @@ func (s *Sim) observe(o Op, rets []string, delivered []Payload, before map[int]i
 	}
 	for h, c := range s.locals {
 		if !liveIDs[c.ID()] {
+			s.retire(h, c)
 			delete(s.locals, h)
 		}
 	}
@@ -369,6 +374,13 @@ func (s *Sim) observe(o Op, rets []string, delivered []Payload, before map[int]i
 	t = append(t, "|")
 	t = append(t, s.snapToks(snap)...)
 	return t
+}
+
+func (s *Sim) retire(h int, c ice.Candidate) {
+	if s.retired == nil {
+		s.retired = map[int]ice.Candidate{}
+	}
+	s.retired[h] = c
 }
 
 func isStun(b []byte) bool {
